@@ -4,6 +4,7 @@ package main
 
 import (
 	"fmt"
+	"sync"
 	"go/token"
 	"go/types"
 	"sort"
@@ -100,9 +101,38 @@ type Run struct {
 	autoAdv int
 	selectForks int
 	pools map[*Value][]Value
+	kr    map[*Term]krInfo
 	allSchedules bool
 	schedForks int
 	mapOrderAll bool
+}
+
+type krInfo struct {
+	div map[int64]*Term // quotient by the constant
+	rem map[int64]*Term // remainder by the constant
+}
+
+var krMu sync.Mutex
+var krDone = map[string]bool{}
+
+// krLemma discharges, in integer arithmetic, the side lemma behind vf.Dur: for 0 <= s <= maxS,
+// 0 <= ms < 1000, 0 <= ns < 10^6 and d = s*10^9 + ms*10^6 + ns: d div 10^9 = s, d mod 10^9 = ms*10^6+ns,
+// d div 10^6 = s*1000+ms, d mod 10^6 = ns, (d mod 10^9) div 10^6 = ms, and d < 2^63.
+func (m *Machine) krLemma(maxS int64) bool {
+	key := fmt.Sprintf("%d", maxS)
+	krMu.Lock()
+	defer krMu.Unlock()
+	if v, ok := krDone[key]; ok {
+		return v
+	}
+	script := fmt.Sprintf("(declare-const ks Int)(declare-const km Int)(declare-const kn Int)"+
+		"(assert (and (<= 0 ks) (<= ks %d) (<= 0 km) (< km 1000) (<= 0 kn) (< kn 1000000)))"+
+		"(define-fun kd () Int (+ (* ks 1000000000) (* km 1000000) kn))"+
+		"(assert (not (and (= (div kd 1000000000) ks) (= (mod kd 1000000000) (+ (* km 1000000) kn)) (= (div kd 1000000) (+ (* ks 1000) km)) (= (mod kd 1000000) kn)"+
+		" (= (div (mod kd 1000000000) 1000000) km) (= (mod (mod kd 1000000000) 1000000) kn) (< kd 9223372036854775808))))", maxS)
+	res := m.solver.RawCheck(script)
+	krDone[key] = res == "unsat"
+	return krDone[key]
 }
 
 type pathEnd struct{ why string }
@@ -115,7 +145,7 @@ func (m *Machine) newRun(prefix []int64) *Run {
 		reached: map[string]bool{}, assertIDs: map[string]int{},
 		locks: map[*Value]*lockState{}, conds: map[*Value]*condState{}, wgs: map[*Value]*wgState{}, onces: map[*Value]*onceState{},
 		strIDs: map[string]uint64{}, strByID: map[uint64]string{}, opaqueG: map[string]*Value{},
-		funcsHit: map[string]bool{}, pools: map[*Value][]Value{},
+		funcsHit: map[string]bool{}, pools: map[*Value][]Value{}, kr: map[*Term]krInfo{},
 	}
 	r.nowT = mkBV(64, 1_000_000_000_000) // virtual clock, ns
 	r.mapOrderAll = m.opts.AllMapOrders
@@ -382,7 +412,19 @@ func (r *Run) reportViolation(kind, id string, pos token.Pos, viol *Term) {
 	for _, k := range open {
 		ex2 = append(ex2, tNot(k.Cond))
 	}
-	res, model := r.m.solver.CheckModel(ex2, r.inputTerms())
+	var res string
+	var model map[string]uint64
+	fp := false
+	for _, e := range ex2 {
+		if hasFP(e, map[*Term]bool{}) {
+			fp = true
+		}
+	}
+	if fp {
+		res, model = OneShot(r.pc, ex2, r.inputTerms(), 120000, r.m.solver)
+	} else {
+		res, model = r.m.solver.CheckModel(ex2, r.inputTerms())
+	}
 	if res == "sat" {
 		v := Violation{Kind: kind, ID: id, Pos: r.posStr(pos), Model: r.modelFrom(model), Trail: append([]int64{}, r.trail...), SelectForks: r.selectForks}
 		r.violations = append(r.violations, v)
